@@ -41,15 +41,24 @@ func splitOPT(rrs []dns.RR) (plain []dns.RR, opts []*dns.OPT) {
 	return plain, opts
 }
 
-func rrKey(rr dns.RR) string { return rr.String() }
+// rrKey renders a record for comparison; a cache counts TTLs down, so they
+// are left out where a cache is part of the handler.
+func rrKey(rr dns.RR, ignoreTTL bool) string {
+	if ignoreTTL {
+		rr = dns.Copy(rr)
+		rr.Header().Ttl = 0
+	}
+
+	return rr.String()
+}
 
 // isPrefix reports whether got is a prefix of want.
-func isPrefix(got, want []dns.RR) bool {
+func isPrefix(got, want []dns.RR, ignoreTTL bool) bool {
 	if len(got) > len(want) {
 		return false
 	}
 	for i := range got {
-		if rrKey(got[i]) != rrKey(want[i]) {
+		if rrKey(got[i], ignoreTTL) != rrKey(want[i], ignoreTTL) {
 			return false
 		}
 	}
@@ -99,10 +108,21 @@ func (e *env) noteOvershoot(c *cell, size, limit int) {
 }
 
 func (e *env) violation(c *cell, o observation, key, what string, extra map[string]any) {
-	if c.phase != "" {
+	switch c.phase {
+	case phasePooled:
 		// Histories across clients that share the servers' Disposer.
 		key = c.phase + ":" + key
 		what += " (response built from a pooled clone of a stored message; the servers dispose of written responses into the same Cloner)"
+	case phaseECS:
+		served := "unknown"
+		if o.hrec != nil {
+			served = "cache"
+			if o.hrec.UpstreamCalls > 0 {
+				served = "upstream (cache miss)"
+			}
+		}
+		key = c.phase + ":" + key
+		what += " (handler = the real ECS-cache middleware over a scripted upstream; served from " + served + ")"
 	}
 
 	w := c.witness()
@@ -357,7 +377,8 @@ func (e *env) judge(c *cell, o observation) {
 		expN, _ := splitOPT(exp.Ns)
 		expX, _ := splitOPT(exp.Extra)
 
-		if !isPrefix(obsA, expA) || !isPrefix(obsN, expN) || !isPrefix(obsX, expX) {
+		noTTL := c.phase == phaseECS
+		if !isPrefix(obsA, expA, noTTL) || !isPrefix(obsN, expN, noTTL) || !isPrefix(obsX, expX, noTTL) {
 			e.violation(c, o, "records-altered:"+fam, "the response carries records that are not a prefix of the handler's sections",
 				map[string]any{"observed_counts": []int{len(obsA), len(obsN), len(obsX)}, "handler_counts": []int{len(expA), len(expN), len(expX)}})
 		}
@@ -382,6 +403,19 @@ func (e *env) judge(c *cell, o observation) {
 		if m.Truncated && len(obsA) > 0 {
 			e.violation(c, o, "tc-with-answers:"+fam, "the TC bit is set but the answer section is not empty", counts)
 		}
+	}
+
+	if c.phase == phaseECS && o.hrec != nil {
+		src := "hit"
+		if o.hrec.UpstreamCalls > 0 {
+			src = "miss"
+		}
+		r.Bucket("ecs_cache:"+src+":"+fam, 1)
+		if c.path.datagram() && c.form.hasOPT() && c.form.Adv < 4096 && full > limit {
+			// The class in which a request changed by the handler shows.
+			r.Bucket("ecs_cache:"+src+":datagram-client-advertising-less-than-4096-and-answer-larger-than-that", 1)
+		}
+		outcome = src + "-" + outcome
 	}
 
 	r.Bucket("cells:"+c.path.name+":"+outcome, 1)
